@@ -113,7 +113,29 @@ func ruleC16(c *Ctx) {
 	}
 	payload := "slice(" + line + ", const[3], nil)"
 	// payloadState judges how a tag's payload is cut out of the line.
-	payloadState := func(t *Term, tag string) (int, string) {
+	var payloadState func(t *Term, tag string) (int, string)
+	payloadState = func(t *Term, tag string) (int, string) {
+		// a guarded cut ("" for a line too short to carry a payload, the cut otherwise): judged by its cuts
+		if (t.Op == "phi" || t.Op == "anyof") && !t.Cyc && len(t.Args) > 0 {
+			res, why := holds, ""
+			n := 0
+			for _, a := range t.Args {
+				if a.Op == "const" {
+					continue
+				}
+				n++
+				st, w := payloadState(a, tag)
+				if st == broken {
+					return broken, w
+				}
+				if st != holds {
+					res, why = unknown, w
+				}
+			}
+			if n > 0 {
+				return res, why
+			}
+		}
 		switch {
 		case t.String() == payload:
 			return holds, ""
@@ -129,6 +151,12 @@ func ruleC16(c *Ctx) {
 		case t.Op == "slice" && len(t.Args) == 3 && t.Args[0].String() == line && t.Args[2].Op == "nil":
 			if k, ok := t.Args[1].constInt(); ok && k != 3 {
 				return broken, fmt.Sprintf("the payload of %s is line[%d:]; the tag is 3 characters long", tag, k)
+			}
+		}
+		// cut with Split at a character that a field may contain itself ("<3>A^GATC>T" has a '>')
+		if t.Op == "index" && len(t.Args) == 2 && t.Args[0].isCall("strings.Split") && len(t.Args[0].Args) == 2 && t.Args[0].Args[0].String() == line {
+			if sep, ok := t.Args[0].Args[1].constStr(); ok && sep != "" {
+				return broken, fmt.Sprintf("the payload of %s is strings.Split(line, %q)[%s]: the field ends at the next %q, which the field text may contain itself (a cut mark, an arrow, an address in angle brackets), so the rest of it is lost", tag, sep, t.Args[1].Name, sep)
 			}
 		}
 		return unknown, "the payload of " + tag + " is " + short(t.String())
